@@ -262,6 +262,34 @@ class Emb(Packet):
     payloads = [dict(groups=p) for p in parts] + [dict(groups=[probes])]
     results = run_impl_parallel(os.path.join(VERIF, 'harness', 'impl_world.py'), payloads)
     failures = []
+    # ---- one table of FIELD objects handed out by the selectors of two classes with different class options (byte order, search
+    # window): what packets of one class hold and serialize does not depend on whether a packet of the other class was parsed or
+    # packed before -- both orders, each in a fresh process, against the declared encodings
+    ssrc = ("KINDS = {1: Int(2), 2: Int(4), 3: Data(until_marker=b';')}\n"
+            "class RecB(Packet):\n    kind = Int(1, default=1)\n    value = Ref(kind.chooses(KINDS), default=0)\n    t = Int(1)\n"
+            "class LegB(Packet):\n    __bisturi__ = {'endianness': 'little', 'search_buffer_length': 3}\n    kind = Int(1, default=1)\n    value = Ref(kind.chooses(KINDS), default=0)\n    t = Int(1)\n")
+    def shared_cases(first):
+        order = [first, 'LegB' if first == 'RecB' else 'RecB', first]
+        cs = []
+        for cls in order:
+            for kind, w in ((1, 2), (2, 4)):
+                v = int.from_bytes(bytes(range(1, w + 1)), 'big')
+                cs.append(dict(cls=cls, op='pack', value={"py": f"{cls}(kind={kind}, value={v}, t=9)"}))
+                cs.append(dict(cls=cls, op='roundtrip', raw=(bytes([kind]) + bytes(range(1, w + 1)) + b'\x09').hex(), offset=0))
+            cs.append(dict(cls=cls, op='roundtrip', raw=b'\x03abcdef;\x09'.hex(), offset=0))
+        return cs
+    seen_sh = {}
+    for first in ('RecB', 'LegB'):
+        cs = shared_cases(first)
+        sres_ = run_impl(os.path.join(VERIF, 'harness', 'impl_pkt.py'), dict(header=decl.HEADER_PY, blocks=[dict(name='sharedtable', src=ssrc)], modname='c13s' + first, cases=cs))
+        for k, (c, o) in enumerate(zip(cs, sres_['outcomes'])):
+            key = json.dumps([c['cls'], c.get('value'), c.get('raw')])
+            txt = json.dumps(o, sort_keys=True)
+            if key in seen_sh and seen_sh[key][0] != txt:
+                failures.append(dict(kind='oracle', sig='shared-field-table', what=f"two classes whose selectors hand out the SAME field objects: {c['cls']}: {c.get('value', {}).get('py') or c.get('raw')} gives {txt[:200]} here and {seen_sh[key][0][:200]} in the history {seen_sh[key][1]}: what a packet holds and serializes depends on the packets of the OTHER class handled before",
+                                     classes=ssrc, cls=c['cls'], history=[first + ' first'] + [(x['cls'], x.get('value', {}).get('py') or x.get('raw')) for x in cs[:k + 1]], observed=o))
+                break
+            seen_sh.setdefault(key, (txt, f"{first} first, operation {k}"))
     dist = dict(histories=0, steps=0, interference=0, shared_objects=0, pack_impure=0, world_dependent=0, solo_compared=0, field_writes=0, thread_rounds=0, thread_mismatches=0)
     flat = [g for res in results[:-1] for g in res['groups']]
     for (table, hs), gres in zip(metas, flat):
